@@ -15,6 +15,7 @@ package collection
 import (
 	fmt "fmt"
 	age "github.com/craterdog/go-collection-framework/v4/agent"
+	ref "reflect"
 	syn "sync"
 )
 
@@ -103,8 +104,18 @@ func (c *setClass_[V]) MakeFromSequence(values Sequential[V]) SetLike[V] {
 
 // Functions
 
+func (c *setClass_[V]) collatorLike(set SetLike[V]) age.CollatorLike[V] {
+	// A collator tracks its traversal depth so each set needs one of its own.
+	var collator = set.GetCollator()
+	var fresh = age.Collator[V]().MakeWithMaximum(collator.GetMaximum())
+	if ref.TypeOf(collator) != ref.TypeOf(fresh) {
+		return collator // A caller supplied collator orders the result as well.
+	}
+	return fresh
+}
+
 func (c *setClass_[V]) And(first, second SetLike[V]) SetLike[V] {
-	var result = c.MakeWithCollator(first.GetCollator())
+	var result = c.MakeWithCollator(c.collatorLike(first))
 	var iterator = first.GetIterator()
 	for iterator.HasNext() {
 		var value = iterator.GetNext()
@@ -116,14 +127,14 @@ func (c *setClass_[V]) And(first, second SetLike[V]) SetLike[V] {
 }
 
 func (c *setClass_[V]) Or(first, second SetLike[V]) SetLike[V] {
-	var result = c.MakeWithCollator(first.GetCollator())
+	var result = c.MakeWithCollator(c.collatorLike(first))
 	result.AddValues(first)
 	result.AddValues(second)
 	return result
 }
 
 func (c *setClass_[V]) Sans(first, second SetLike[V]) SetLike[V] {
-	var result = c.MakeWithCollator(first.GetCollator())
+	var result = c.MakeWithCollator(c.collatorLike(first))
 	result.AddValues(first)
 	result.RemoveValues(second)
 	return result
